@@ -287,6 +287,13 @@ TypedValue evaluate_binary_op_typed(
                     // sizeof(要素型))
                     // 配列要素はint64_t（8バイト）として保存されているため、実際のメモリレイアウトに合わせる
                     ptrdiff_t offset_value = static_cast<ptrdiff_t>(offset);
+                    // offset * 8 must not wrap: such an offset is outside every array
+                    if (meta->array_var &&
+                        (offset_value > (INT64_MAX / 16) ||
+                         offset_value < -(INT64_MAX / 16))) {
+                        throw std::runtime_error(
+                            "Pointer arithmetic out of array bounds");
+                    }
                     uintptr_t new_address;
                     size_t actual_element_size =
                         sizeof(int64_t); // 配列要素は常にint64_tで保存
